@@ -5,12 +5,20 @@
 // scratch root + fluentd-forward serializer/chunk maker) receives one record of each tuple; the consumer override keeps
 // every chunk unconfirmed, so Shutdown leaves the chunks in the on-disk queues. The queue directories are then read back,
 // and a second orchestrator is started on the same root (recovery path) which receives one more record of each tuple.
+//
+// Further groups (groups.go) widen single dimensions of the same case: the escape character of the queue ID and white space
+// in the values, every byte value at every position of a value, values around every length limit of the path, the root path
+// given through an environment variable, substring forms of the tag template (tagref.go), two outputs of equal and of
+// different types with a backlog held by both / only the first / only the second output across the restart, and key values
+// living in an input buffer that is overwritten after the record was processed.
 package main
 
 import (
 	"bytes"
+	"compress/gzip"
+	"encoding/json"
 	"fmt"
-	"golang.org/x/sys/unix"
+	"io"
 	"os"
 	"path/filepath"
 	"runtime/debug"
@@ -18,6 +26,7 @@ import (
 	"strings"
 	"sync"
 	"time"
+	"unsafe"
 
 	"github.com/c2h5oh/datasize"
 	"github.com/relex/fluentlib/protocol/forwardprotocol"
@@ -29,8 +38,10 @@ import (
 	"github.com/relex/slog-agent/buffer/hybridbuffer"
 	"github.com/relex/slog-agent/defs"
 	"github.com/relex/slog-agent/orchestrate/obykeyset"
+	"github.com/relex/slog-agent/output/datadog"
 	"github.com/relex/slog-agent/output/fluentdforward"
 	"github.com/vmihailenco/msgpack/v4"
+	"golang.org/x/sys/unix"
 
 	"slogverif/hutil"
 	"slogverif/seq"
@@ -41,105 +52,16 @@ import (
 
 var sigma = []string{"", "a", "b", "ab", ",", "a,", ".", "/", "\x00", "é"}
 
-// part of a tag template, in the harness's own representation (the reference expander never parses template text)
-type tpart struct {
-	lit   string
-	field int // -1: literal
-	first int // >0: only the first `first` characters of the value ("${name[:N]}")
-}
-
-type tagTemplate struct {
-	name  string
-	text  func(n int) string // template text given to the orchestrator, for n key fields
-	parts func(n int) []tpart
-}
-
-// With a single key field the templates cannot mention $k2 (only key fields may be referenced); the k2 part is dropped.
-var templates = []tagTemplate{
-	{"k1",
-		func(n int) string { return "$k1" },
-		func(n int) []tpart { return []tpart{{field: 0}} }},
-	{"t.k1.k2",
-		func(n int) string {
-			if n == 1 {
-				return "t.$k1"
-			}
-			return "t.$k1.$k2"
-		},
-		func(n int) []tpart {
-			if n == 1 {
-				return []tpart{{lit: "t.", field: -1}, {field: 0}}
-			}
-			return []tpart{{lit: "t.", field: -1}, {field: 0}, {lit: ".", field: -1}, {field: 1}}
-		}},
-	{"k1[:1]-k2",
-		func(n int) string {
-			if n == 1 {
-				return "${k1[:1]}-"
-			}
-			return "${k1[:1]}-$k2"
-		},
-		func(n int) []tpart {
-			if n == 1 {
-				return []tpart{{field: 0, first: 1}, {lit: "-", field: -1}}
-			}
-			return []tpart{{field: 0, first: 1}, {lit: "-", field: -1}, {field: 1}}
-		}},
-	{"const",
-		func(n int) string { return "constant" },
-		func(n int) []tpart { return []tpart{{lit: "constant", field: -1}} }},
-}
-
-// refTags is the reference expander: the acceptable tags of a tuple. "[:N]" is documented by the example
-// `${color[:1]}-$type` => "R-Car" only; whether N counts bytes or characters is not documented, both are accepted.
-func refTags(parts []tpart, tuple []string) []string {
-	outs := []string{""}
-	for _, p := range parts {
-		var alts []string
-		switch {
-		case p.field < 0:
-			alts = []string{p.lit}
-		case p.first > 0:
-			v := tuple[p.field]
-			byBytes := v
-			if len(byBytes) > p.first {
-				byBytes = byBytes[:p.first]
-			}
-			byRunes := ""
-			cnt := 0
-			for _, r := range v {
-				if cnt == p.first {
-					break
-				}
-				byRunes += string(r)
-				cnt++
-			}
-			alts = []string{byBytes}
-			if byRunes != byBytes {
-				alts = append(alts, byRunes)
-			}
-		default:
-			alts = []string{tuple[p.field]}
-		}
-		next := make([]string, 0, len(outs)*len(alts))
-		for _, o := range outs {
-			for _, a := range alts {
-				next = append(next, o+a)
-			}
-		}
-		outs = next
-	}
-	return outs
-}
-
-func tupleOf(n, index int) []string {
+func tupleOver(alpha []string, n, index int) []string {
 	t := make([]string, n)
 	for i := n - 1; i >= 0; i-- {
-		t[i] = sigma[index%len(sigma)]
-		index /= len(sigma)
+		t[i] = alpha[index%len(alpha)]
+		index /= len(alpha)
 	}
 	return t
 }
+
+func tupleOf(n, index int) []string { return tupleOver(sigma, n, index) }
 
 func pow(b, e int) int {
 	r := 1
@@ -181,12 +103,28 @@ func tupleFeature(t []string) string {
 	return "other"
 }
 
+// documentedIDLen is the length of the queue ID of a key set as documented at makePipelineID ("commas and percent signs inside
+// values are escaped", values joined by commas). Used in the MESSAGE of the name-too-long class only.
+func documentedIDLen(t []string) int {
+	n := len(t) - 1
+	for _, v := range t {
+		n += len(v) + 2*strings.Count(v, ",") + 2*strings.Count(v, "%")
+	}
+	return n
+}
+
 // ---------------------------------------------------------------------------------------------------------------------
 // capture
+
+const (
+	kindFF = "ff" // fluentd forward output
+	kindDD = "dd" // datadog output
+)
 
 type capRecord struct {
 	marker string            // value of the msg field: identifies the input record
 	fields map[string]string // all top-level string fields
+	tag    string            // the tag the record is delivered under: the chunk's tag (fluentd) / the event's ddtags (datadog)
 }
 
 type capChunk struct {
@@ -196,7 +134,10 @@ type capChunk struct {
 	err     string
 }
 
-func decodeChunk(id string, data []byte) capChunk {
+func decodeChunk(kind, id string, data []byte) capChunk {
+	if kind == kindDD {
+		return decodeDatadogChunk(id, data)
+	}
 	c := capChunk{id: id}
 	var message forwardprotocol.Message
 	if err := msgpack.NewDecoder(bytes.NewReader(data)).Decode(&message); err != nil {
@@ -205,7 +146,7 @@ func decodeChunk(id string, data []byte) capChunk {
 	}
 	c.tag = message.Tag
 	for _, e := range message.Entries {
-		r := capRecord{fields: map[string]string{}}
+		r := capRecord{fields: map[string]string{}, tag: message.Tag}
 		for k, v := range e.Record {
 			if s, ok := v.(string); ok {
 				r.fields[k] = s
@@ -217,26 +158,59 @@ func decodeChunk(id string, data []byte) capChunk {
 	return c
 }
 
+// a Datadog chunk is a gzip-compressed JSON array of flat events; the tag of the pipeline is the event's "ddtags"
+// ("ddtags defaults to the orchestration tag if empty or undefined in schema", config_sample.yml; the schema here has no such field)
+func decodeDatadogChunk(id string, data []byte) capChunk {
+	c := capChunk{id: id}
+	zr, err := gzip.NewReader(bytes.NewReader(data))
+	if err != nil {
+		c.err = err.Error()
+		return c
+	}
+	plain, err := io.ReadAll(zr)
+	if err != nil {
+		c.err = err.Error()
+		return c
+	}
+	var events []map[string]string
+	if err := json.Unmarshal(plain, &events); err != nil {
+		c.err = err.Error()
+		return c
+	}
+	for i, e := range events {
+		r := capRecord{fields: e, marker: e["msg"], tag: e["ddtags"]}
+		if i == 0 {
+			c.tag = r.tag
+		}
+		c.records = append(c.records, r)
+	}
+	return c
+}
+
 type capture struct {
 	mu        sync.Mutex
 	consumers []*capConsumer
-	startup   bool // consumers created now are created by StartOrchestrator itself
-	confirm   bool
+	startup   bool              // consumers created now are created by StartOrchestrator itself
+	confirm   bool              // consumers confirm every chunk ...
+	hold      map[string]bool   // ... except those of the outputs listed here (by output name), which never confirm
+	kinds     map[string]string // output name -> kind (chunk format)
 }
 
 type capConsumer struct {
 	cap     *capture
 	index   int
+	output  string
 	startup bool
+	confirm bool
 	args    base.ChunkConsumerArgs
 	chunks  []capChunk // guarded by cap.mu
 	stopped *channels.SignalAwaitable
 }
 
-func (c *capture) newConsumer(_ logger.Logger, _ string, _ base.ChunkDecoder, args base.ChunkConsumerArgs) base.ChunkConsumer {
+func (c *capture) newConsumer(_ logger.Logger, name string, _ base.ChunkDecoder, args base.ChunkConsumerArgs) base.ChunkConsumer {
 	c.mu.Lock()
 	defer c.mu.Unlock()
-	cc := &capConsumer{cap: c, index: len(c.consumers), startup: c.startup, args: args, stopped: channels.NewSignalAwaitable()}
+	cc := &capConsumer{cap: c, index: len(c.consumers), output: name, startup: c.startup, confirm: c.confirm && !c.hold[name], args: args, stopped: channels.NewSignalAwaitable()}
 	c.consumers = append(c.consumers, cc)
 	return cc
 }
@@ -259,11 +233,11 @@ func (cc *capConsumer) run() {
 			if !ok {
 				return
 			}
-			dc := decodeChunk(chunk.ID, chunk.Data)
+			dc := decodeChunk(cc.cap.kinds[cc.output], chunk.ID, chunk.Data)
 			cc.cap.mu.Lock()
 			cc.chunks = append(cc.chunks, dc)
 			cc.cap.mu.Unlock()
-			if cc.cap.confirm {
+			if cc.confirm {
 				cc.args.OnChunkConsumed(chunk)
 			} else {
 				held = append(held, chunk)
@@ -274,12 +248,15 @@ func (cc *capConsumer) run() {
 	}
 }
 
-// delivered returns marker -> consumer index, over all chunks seen so far
-func (c *capture) delivered() map[string]int {
+// delivered returns marker -> consumer index, over all chunks seen so far by the consumers of one output ("" = all outputs)
+func (c *capture) delivered(output string) map[string]int {
 	c.mu.Lock()
 	defer c.mu.Unlock()
 	out := map[string]int{}
 	for _, cc := range c.consumers {
+		if output != "" && cc.output != output {
+			continue
+		}
 		for _, ch := range cc.chunks {
 			for _, r := range ch.records {
 				out[r.marker] = cc.index
@@ -287,6 +264,36 @@ func (c *capture) delivered() map[string]int {
 		}
 	}
 	return out
+}
+
+// seen counts the (output, marker) deliveries so far
+func (c *capture) seen() int {
+	c.mu.Lock()
+	defer c.mu.Unlock()
+	n := 0
+	for _, cc := range c.consumers {
+		for _, ch := range cc.chunks {
+			n += len(ch.records)
+		}
+	}
+	return n
+}
+
+func (c *capture) numConsumers() int {
+	c.mu.Lock()
+	defer c.mu.Unlock()
+	return len(c.consumers)
+}
+
+// settleLimit bounds the wait for records to reach the consumers (flush interval 1 ms); it is only ever used up when a record is lost
+const settleLimit = 20 * time.Second
+
+// waitSeen waits until the consumers have seen `want` record deliveries (or the limit passes: the oracle then reports what is missing)
+func (c *capture) waitSeen(want int, limit time.Duration) {
+	deadline := time.Now().Add(limit)
+	for c.seen() < want && time.Now().Before(deadline) {
+		time.Sleep(100 * time.Microsecond)
+	}
 }
 
 // ---------------------------------------------------------------------------------------------------------------------
@@ -299,7 +306,7 @@ type queueDir struct {
 	chunks []capChunk
 }
 
-func scanRoot(root string) []queueDir {
+func scanRoot(root, kind string) []queueDir {
 	var out []queueDir
 	readDir := func(path, name string) {
 		q := queueDir{name: name}
@@ -308,7 +315,7 @@ func scanRoot(root string) []queueDir {
 		}
 		entries, _ := os.ReadDir(path)
 		for _, e := range entries {
-			if e.IsDir() || !strings.HasSuffix(e.Name(), ".ff") {
+			if e.IsDir() || !strings.HasSuffix(e.Name(), "."+kind) {
 				continue
 			}
 			data, err := os.ReadFile(filepath.Join(path, e.Name()))
@@ -316,7 +323,7 @@ func scanRoot(root string) []queueDir {
 				q.chunks = append(q.chunks, capChunk{id: e.Name(), err: err.Error()})
 				continue
 			}
-			q.chunks = append(q.chunks, decodeChunk(e.Name(), data))
+			q.chunks = append(q.chunks, decodeChunk(kind, e.Name(), data))
 		}
 		if q.hasID || len(q.chunks) > 0 {
 			out = append(out, q)
@@ -333,53 +340,119 @@ func scanRoot(root string) []queueDir {
 	return out
 }
 
+func countChunks(dirs []queueDir) int {
+	n := 0
+	for _, d := range dirs {
+		n += len(d.chunks)
+	}
+	return n
+}
+
 // ---------------------------------------------------------------------------------------------------------------------
 // the system under test
 
+// how the root path of a buffer is written in the configuration ("may contain environment variables")
+const (
+	rootLiteral = iota
+	rootDollarVar
+	rootBracedVar
+)
+
+const rootEnvVar = "SEQKEYS_STATE_DIR"
+
+type worldCfg struct {
+	n        int
+	tmplText string
+	scratch  string   // per-case scratch directory
+	kinds    []string // one output per element
+	rootForm int
+}
+
+func (c worldCfg) outputName(i int) string { return fmt.Sprintf("o%d", i) }
+
+// rootOf is the real directory of output i's buffer
+func (c worldCfg) rootOf(i int) string {
+	switch {
+	case len(c.kinds) > 1:
+		return filepath.Join(c.scratch, c.outputName(i))
+	case c.rootForm != rootLiteral:
+		return filepath.Join(c.scratch, "buffer")
+	}
+	return c.scratch
+}
+
+// rootText is what the configuration says
+func (c worldCfg) rootText(i int) string {
+	rel := strings.TrimPrefix(c.rootOf(i), c.scratch)
+	switch c.rootForm {
+	case rootDollarVar:
+		return "$" + rootEnvVar + rel
+	case rootBracedVar:
+		return "${" + rootEnvVar + "}" + rel
+	}
+	return c.rootOf(i)
+}
+
 type world struct {
+	cfg    worldCfg
 	n      int
 	schema base.LogSchema
 	keys   []string
 	orcCfg *obykeyset.Config
 	args   bconfig.PipelineArgs
-	root   string
 }
 
-func newWorld(n int, tmplText string, root string, cap *capture, outputs int) *world {
+func newWorld(cfg worldCfg, cap *capture) *world {
+	n := cfg.n
 	keys := make([]string, n)
 	for i := range keys {
 		keys[i] = fmt.Sprintf("k%d", i+1)
 	}
 	fields := append(append([]string{}, keys...), "msg", "env")
 	schema := base.MustNewLogSchema(fields)
-	w := &world{n: n, schema: schema, keys: keys, root: root}
-	w.orcCfg = &obykeyset.Config{Keys: keys, TagTemplate: tmplText}
+	w := &world{cfg: cfg, n: n, schema: schema, keys: keys}
+	w.orcCfg = &obykeyset.Config{Keys: keys, TagTemplate: cfg.tmplText}
 	if _, err := w.orcCfg.VerifyConfig(schema); err != nil {
 		panic("harness: orchestration config rejected: " + err.Error())
 	}
-	pairs := make([]bconfig.OutputBufferConfig, outputs)
-	for i := range pairs {
-		out := &fluentdforward.Config{
-			Serialization: fluentdforward.SerializationConfig{EnvironmentFields: []string{"env"}},
-			MessageMode:   forwardprotocol.ModeForward,
-			Upstream:      fluentdforward.UpstreamConfig{Address: "localhost:24224", MaxDuration: time.Minute},
+	if cfg.rootForm != rootLiteral {
+		os.Setenv(rootEnvVar, cfg.scratch)
+	}
+	cap.kinds = map[string]string{}
+	pairs := make([]bconfig.OutputBufferConfig, len(cfg.kinds))
+	for i, kind := range cfg.kinds {
+		var out bconfig.LogOutputConfig
+		if kind == kindDD {
+			dd := &datadog.Config{Upstream: datadog.UpstreamConfig{Address: "http://localhost:1/api/v2/logs", HTTPTimeout: time.Second}}
+			if err := dd.VerifyConfig(schema); err != nil {
+				panic("harness: output config rejected: " + err.Error())
+			}
+			out = dd
+		} else {
+			ff := &fluentdforward.Config{
+				Serialization: fluentdforward.SerializationConfig{EnvironmentFields: []string{"env"}},
+				MessageMode:   forwardprotocol.ModeForward,
+				Upstream:      fluentdforward.UpstreamConfig{Address: "localhost:24224", MaxDuration: time.Minute},
+			}
+			if err := ff.VerifyConfig(schema); err != nil {
+				panic("harness: output config rejected: " + err.Error())
+			}
+			out = ff
 		}
-		if err := out.VerifyConfig(schema); err != nil {
-			panic("harness: output config rejected: " + err.Error())
+		buf := &hybridbuffer.Config{RootPath: cfg.rootText(i), MaxBufSize: datasize.ByteSize(1 << 20)}
+		if err := buf.VerifyConfig(); err != nil {
+			panic("harness: buffer config rejected: " + err.Error())
 		}
-		buf := &hybridbuffer.Config{RootPath: filepath.Join(root, fmt.Sprintf("o%d", i)), MaxBufSize: datasize.ByteSize(1 << 20)}
-		if outputs == 1 {
-			buf.RootPath = root
-		}
+		cap.kinds[cfg.outputName(i)] = kind
 		pairs[i] = bconfig.OutputBufferConfig{
-			Name:         fmt.Sprintf("o%d", i),
+			Name:         cfg.outputName(i),
 			BufferConfig: bconfig.ConfigHolder[bconfig.ChunkBufferConfig]{Value: buf},
 			OutputConfig: bconfig.ConfigHolder[bconfig.LogOutputConfig]{Value: out},
 		}
 	}
 	w.args = bconfig.PipelineArgs{
 		Schema:              schema,
-		Deallocator:         base.NewLogAllocator(schema, outputs),
+		Deallocator:         base.NewLogAllocator(schema, len(cfg.kinds)),
 		MetricKeyLocators:   schema.MustCreateFieldLocators([]string{"env"}),
 		TransformConfigs:    nil,
 		OutputBufferPairs:   pairs,
@@ -389,20 +462,29 @@ func newWorld(n int, tmplText string, root string, cap *capture, outputs int) *w
 	return w
 }
 
-func (w *world) record(tuple []string, marker string, sec int64) *base.LogRecord {
+// record builds an input record. With volatile the key values live in a buffer owned by the caller (returned), as the values
+// of a parsed record live in the pooled input buffer that is recycled once the record has been processed by every output.
+func (w *world) record(tuple []string, marker string, sec int64, volatile bool) (*base.LogRecord, [][]byte) {
 	fields := make(base.LogFields, 0, w.n+2)
+	var backing [][]byte
 	for _, v := range tuple {
-		fields = append(fields, string(append([]byte(nil), v...))) // private copy: the record owns its bytes
+		b := append([]byte(nil), v...) // private copy: the record owns its bytes
+		if volatile && len(b) > 0 {
+			backing = append(backing, b)
+			fields = append(fields, unsafe.String(&b[0], len(b)))
+		} else {
+			fields = append(fields, string(b))
+		}
 	}
 	fields = append(fields, marker, "e")
 	rec, _ := w.args.Deallocator.NewRecord(nil) // reference count = number of outputs, as the parser would get it
 	copy(rec.Fields, fields)
 	rec.Timestamp = time.Unix(1600000000+sec, 0)
 	rec.RawLength = 100
-	return rec
+	return rec, backing
 }
 
-var logCap = &hutil.LogCapture{}
+var logCap = &hutil.LogCapture{All: true} // every line at error level and above is kept (the harness names classes by logged causes)
 
 // keyLabelTuples returns the key tuples (key_k1..key_kn label values) of all pipelines visible in the metric registry
 func keyLabelTuples(mf *promreg.MetricFactory, keys []string) [][]string {
@@ -434,16 +516,63 @@ func keyLabelTuples(mf *promreg.MetricFactory, keys []string) [][]string {
 	return out
 }
 
+// which outputs still hold their chunks (upstream down) when generation 1 shuts down
+const (
+	backlogAll        = iota // every output
+	backlogFirstOnly         // output 0; every other output has delivered everything
+	backlogSecondOnly        // output 1; output 0 has delivered everything
+)
+
 type pairCase struct {
-	n       int
-	tmpl    tagTemplate
-	conns   int
-	a, b    []string
-	outputs int
-	umask   int // != 0: the process runs with this file mode creation mask (queue directories are created 0750 / 0700)
+	n        int
+	tmpl     tagTemplate
+	conns    int
+	a, b     []string
+	outputs  int
+	umask    int      // != 0: the process runs with this file mode creation mask (queue directories are created 0750 / 0700)
+	kinds    []string // nil: `outputs` fluentd outputs
+	backlog  int
+	noGen2   bool // separation only
+	rootForm int
+	// settle: generation 1 runs with a 1 ms flush interval and waits until every consumer has seen the records, the
+	// consumer-side oracle (pipeline identity, tag, key fields) is applied before Shutdown, and a second record of each tuple
+	// follows on a new connection (after the key bytes of the first were overwritten, if volatile)
+	settle   bool
+	volatile bool
+	// quickGiveUp: generation 1 shuts down with defs.BufferShutDownTimeout = 300 ms. A pipeline WITHOUT a queue directory waits that
+	// long (4 minutes by default) for its consumer to deliver what it holds; the consumers of generation 1 never deliver (upstream
+	// down), so the outcome is the same and only the wait is shorter. Pipelines with a queue directory do not wait at all.
+	quickGiveUp bool
+	maxMsg      int // != 0: defs.InputLogMaxMessageBytes for this case (values beyond the scaled-down default)
 }
 
-func q(t []string) string { return fmt.Sprintf("%q", t) }
+func (pc pairCase) held(o int) bool {
+	switch pc.backlog {
+	case backlogFirstOnly:
+		return o == 0
+	case backlogSecondOnly:
+		return o == 1
+	}
+	return true
+}
+
+func short(v string) string {
+	if len(v) <= 40 {
+		return fmt.Sprintf("%q", v)
+	}
+	return fmt.Sprintf("%q..%q(%d bytes)", v[:10], v[len(v)-10:], len(v))
+}
+
+func q(t []string) string {
+	s := make([]string, len(t))
+	for i, v := range t {
+		s[i] = short(v)
+	}
+	return "[" + strings.Join(s, " ") + "]"
+}
+
+func qs(t []string) string  { return q(t) }
+func clipq(v string) string { return short(v) }
 
 func inList(s string, list []string) bool {
 	for _, x := range list {
@@ -454,24 +583,62 @@ func inList(s string, list []string) bool {
 	return false
 }
 
+// a record's delivery tag against the reference expansion. A Datadog event carries no ddtags when the tag is empty.
+func tagOK(tag string, want []string) bool { return inList(tag, want) }
+
+func mergeClass(a, b []string) string {
+	if strings.Join(a, "") == strings.Join(b, "") {
+		return "concatenations-coincide"
+	}
+	return "other"
+}
+
 // runPair executes one case; returns the first violation (key, msg).
 func runPair(pc pairCase) (string, string) {
 	if pc.umask != 0 {
 		old := unix.Umask(pc.umask)
 		defer unix.Umask(old)
 	}
-	root := hutil.ScratchRoot("seqkeys")
-	defer os.RemoveAll(root)
+	if pc.maxMsg != 0 {
+		oldMsg, oldRec := defs.InputLogMaxMessageBytes, defs.InputLogMaxRecordBytes
+		defs.InputLogMaxMessageBytes, defs.InputLogMaxRecordBytes = pc.maxMsg, pc.maxMsg+256
+		defer func() { defs.InputLogMaxMessageBytes, defs.InputLogMaxRecordBytes = oldMsg, oldRec }()
+	}
+	scratch := hutil.ScratchRoot("seqkeys")
+	defer os.RemoveAll(scratch)
 	logCap.Reset()
+	kinds := pc.kinds
+	if kinds == nil {
+		for o := 0; o < pc.outputs; o++ {
+			kinds = append(kinds, kindFF)
+		}
+	}
+	nout := len(kinds)
+	wc := worldCfg{n: pc.n, tmplText: pc.tmpl.text(pc.n), scratch: scratch, kinds: kinds, rootForm: pc.rootForm}
 	parts := pc.tmpl.parts(pc.n)
-	tuples := map[string][]string{"A1": pc.a, "B1": pc.b, "A2": pc.a, "B2": pc.b}
-	twin := map[string]string{"A1": "A2", "B1": "B2"}
+	// A1/B1 (and A3/B3 with settle) are the records of generation 1, A2/B2 arrive after the restart
+	tuples := map[string][]string{"A1": pc.a, "B1": pc.b, "A2": pc.a, "B2": pc.b, "A3": pc.a, "B3": pc.b}
+	twin := map[string]string{"A1": "A2", "B1": "B2", "A3": "A2", "B3": "B2"}
+	gen1Markers := []string{"A1", "B1"}
+	if pc.settle {
+		gen1Markers = []string{"A1", "B1", "A3", "B3"}
+	}
+	settle := pc.settle || pc.backlog != backlogAll // an output that delivers everything needs the time to do so
 
 	// ---------------- generation 1: route, do not confirm, shut down
 	defs.IntermediateFlushInterval = time.Second // chunks are cut by Shutdown only: one pipeline => one chunk
-	cap1 := &capture{startup: true}
-	w := newWorld(pc.n, pc.tmpl.text(pc.n), root, cap1, pc.outputs)
-	orc := w.orcCfg.StartOrchestrator(logger.Root(), w.args, promreg.NewMetricFactory("g1_", nil, nil))
+	if settle {
+		defs.IntermediateFlushInterval = time.Millisecond
+	}
+	cap1 := &capture{startup: true, confirm: true, hold: map[string]bool{}}
+	for o := 0; o < nout; o++ {
+		if pc.held(o) {
+			cap1.hold[wc.outputName(o)] = true
+		}
+	}
+	w := newWorld(wc, cap1)
+	mf1 := promreg.NewMetricFactory("g1_", nil, nil)
+	orc := w.orcCfg.StartOrchestrator(logger.Root(), w.args, mf1)
 	cap1.mu.Lock()
 	cap1.startup = false
 	cap1.mu.Unlock()
@@ -480,24 +647,70 @@ func runPair(pc pairCase) (string, string) {
 	if pc.conns == 2 {
 		s2 = orc.NewSink("c2", 2)
 	}
-	s1.Accept([]*base.LogRecord{w.record(pc.a, "A1", 1)})
-	s2.Accept([]*base.LogRecord{w.record(pc.b, "B1", 2)})
+	recA, backA := w.record(pc.a, "A1", 1, pc.volatile)
+	recB, backB := w.record(pc.b, "B1", 2, pc.volatile)
+	s1.Accept([]*base.LogRecord{recA})
+	s2.Accept([]*base.LogRecord{recB})
 	s1.Close()
 	if pc.conns == 2 {
 		s2.Close()
 	}
-	orc.Shutdown()
+	if settle {
+		cap1.waitSeen(2*nout, settleLimit)
+	}
+	if pc.settle {
+		if k, m := consumerView(cap1, w, pc, parts, tuples, []string{"A1", "B1"}); k != "" {
+			orc.Shutdown()
+			return k, m
+		}
+		if pc.volatile {
+			// every output has serialized both records: they are released, the input buffer that held their key values is reused
+			for _, b := range append(backA, backB...) {
+				for i := range b {
+					b[i] = '#'
+				}
+			}
+		}
+		s3 := orc.NewSink("c5", 5)
+		recA3, _ := w.record(pc.a, "A3", 5, false)
+		recB3, _ := w.record(pc.b, "B3", 6, false)
+		s3.Accept([]*base.LogRecord{recA3, recB3})
+		s3.Close()
+		cap1.waitSeen(4*nout, settleLimit)
+		if k, m := consumerView(cap1, w, pc, parts, tuples, gen1Markers); k != "" {
+			orc.Shutdown()
+			return k, m
+		}
+		if k, m := checkKeyLabels(keyLabelTuples(mf1, w.keys), tuples, []string{"A1", "B1"}, "gen1"); k != "" {
+			orc.Shutdown()
+			return k, m
+		}
+	}
+	if pc.quickGiveUp {
+		old := defs.BufferShutDownTimeout
+		defs.BufferShutDownTimeout = 300 * time.Millisecond
+		orc.Shutdown()
+		defs.BufferShutDownTimeout = old
+	} else {
+		orc.Shutdown()
+	}
 	if l := logCap.FirstBugLine(); l != "" {
 		return "bug-log:gen1", l
 	}
-	npipes1 := len(cap1.consumers) / pc.outputs
+	npipes1 := cap1.numConsumers() / nout
 
-	for o := 0; o < pc.outputs; o++ {
-		oroot := root
-		if pc.outputs > 1 {
-			oroot = filepath.Join(root, fmt.Sprintf("o%d", o))
+	for o := 0; o < nout; o++ {
+		dirs := scanRoot(wc.rootOf(o), kinds[o])
+		if !pc.held(o) {
+			// this output delivered (confirmed) everything before the shutdown: its records are checked at the consumer
+			if k, m := consumerViewOf(cap1, wc.outputName(o), w, pc, parts, tuples, gen1Markers); k != "" {
+				return k, m
+			}
+			if countChunks(dirs) > 0 {
+				return "queue:confirmed-chunk-left-on-disk", fmt.Sprintf("output %s confirmed every chunk, but chunks remain in its queue directories after Shutdown: %s", wc.outputName(o), describeDirs(dirs))
+			}
+			continue
 		}
-		dirs := scanRoot(oroot)
 		where := map[string]string{}   // marker -> dir
 		inChunk := map[string]string{} // marker -> dir/chunk
 		chunkTag := map[string]string{}
@@ -512,29 +725,34 @@ func runPair(pc pairCase) (string, string) {
 					}
 					where[r.marker] = d.name
 					inChunk[r.marker] = d.name + "/" + ch.id
-					chunkTag[r.marker] = ch.tag
+					chunkTag[r.marker] = r.tag
 					// the record's own key values, as serialized (empty values are omitted by the serializer)
 					t := tuples[r.marker]
 					for i, k := range w.keys {
 						if t != nil && r.fields[k] != t[i] {
-							return "chunk:key-field-altered", fmt.Sprintf("record %s of tuple %s was serialized with %s=%q", r.marker, q(t), k, r.fields[k])
+							return "chunk:key-field-altered", fmt.Sprintf("record %s of tuple %s was serialized with %s=%s", r.marker, q(t), k, short(r.fields[k]))
 						}
 					}
 				}
 			}
 		}
-		for _, m := range []string{"A1", "B1"} {
+		for _, m := range gen1Markers {
 			if _, ok := where[m]; !ok {
-				return "lost:gen1-record", fmt.Sprintf("record %s of tuple %s is in no queue directory after Shutdown (dirs: %s)", m, q(tuples[m]), describeDirs(dirs))
+				t := tuples[m]
+				if log := logCap.String(); strings.Contains(log, "file name too long") {
+					// own class: the queue directory of this key set could not be created because its NAME is too long
+					idLen := documentedIDLen(t)
+					return "queue-dir:name-too-long", fmt.Sprintf("record %s of key set %s (value lengths %v) is in no queue directory of output %s after Shutdown: the queue directory was never created (logged: %s). "+
+						"The documented queue ID of this key set (values joined by ',', ',' and '%%' escaped) has %d bytes; the directory name adds '.'+8 hash characters = %d bytes, the file system allows 255. "+
+						"Minimal failing key set: ONE key field with a value of 247 ordinary bytes (e.g. 247 x 'x'); 246 bytes are stored. dirs: %s",
+						m, q(t), lengths(t), wc.outputName(o), firstLineWith(log, "file name too long"), idLen, idLen+9, describeDirs(dirs))
+				}
+				return "lost:gen1-record", fmt.Sprintf("record %s of tuple %s is in no queue directory after Shutdown (dirs: %s)", m, q(t), describeDirs(dirs))
 			}
 		}
 		if npipes1 == 1 || inChunk["A1"] == inChunk["B1"] {
-			cls := "other"
-			if strings.Join(pc.a, "") == strings.Join(pc.b, "") {
-				cls = "concatenations-coincide"
-			}
-			return "merge:one-pipeline:" + cls, fmt.Sprintf("tuples %s and %s differ but their records were processed by ONE pipeline (pipelines created: %d; chunk of A1: %s tag %q; chunk of B1: %s tag %q; expected tags %q / %q)",
-				q(pc.a), q(pc.b), npipes1, inChunk["A1"], chunkTag["A1"], inChunk["B1"], chunkTag["B1"], refTags(parts, pc.a), refTags(parts, pc.b))
+			return "merge:one-pipeline:" + mergeClass(pc.a, pc.b), fmt.Sprintf("tuples %s and %s differ but their records were processed by ONE pipeline (pipelines created: %d; chunk of A1: %s tag %s; chunk of B1: %s tag %s; expected tags %s / %s)",
+				q(pc.a), q(pc.b), npipes1, inChunk["A1"], short(chunkTag["A1"]), inChunk["B1"], short(chunkTag["B1"]), q(refTags(parts, pc.a)), q(refTags(parts, pc.b)))
 		}
 		if where["A1"] == where["B1"] {
 			cls := "other"
@@ -543,10 +761,13 @@ func runPair(pc pairCase) (string, string) {
 			}
 			return "merge:shared-queue-dir:" + cls, fmt.Sprintf("tuples %s and %s went through %d pipelines but share the queue directory %q (dirs: %s)", q(pc.a), q(pc.b), npipes1, where["A1"], describeDirs(dirs))
 		}
-		for _, m := range []string{"A1", "B1"} {
-			if want := refTags(parts, tuples[m]); !inList(chunkTag[m], want) {
-				return "tag:mismatch", fmt.Sprintf("record %s of tuple %s queued under tag %q, template %q expands to %q", m, q(tuples[m]), chunkTag[m], pc.tmpl.text(pc.n), want)
+		for _, m := range gen1Markers {
+			if want := refTags(parts, tuples[m]); !tagOK(chunkTag[m], want) {
+				return "tag:mismatch", fmt.Sprintf("record %s of tuple %s queued under tag %s, template %q expands to %s", m, q(tuples[m]), short(chunkTag[m]), wc.tmplText, q(want))
 			}
+		}
+		if pc.settle && (where["A3"] != where["A1"] || where["B3"] != where["B1"]) {
+			return "queue:later-record-in-other-dir", fmt.Sprintf("two records of one key set are queued in different directories: A1 in %q, A3 in %q, B1 in %q, B3 in %q", where["A1"], where["A3"], where["B1"], where["B3"])
 		}
 		// directory identities must be distinct too
 		ids := map[string]string{}
@@ -555,24 +776,25 @@ func runPair(pc pairCase) (string, string) {
 				continue
 			}
 			if other, dup := ids[d.id]; dup {
-				return "merge:same-dir-id", fmt.Sprintf("queue directories %q and %q carry the same id %q", other, d.name, d.id)
+				return "merge:same-dir-id", fmt.Sprintf("queue directories %q and %q carry the same id %s", other, d.name, short(d.id))
 			}
 			ids[d.id] = d.name
 		}
 	}
-	if pc.outputs > 1 {
-		return "", "" // the recovery part is exercised with one output
+	if pc.noGen2 {
+		return "", ""
 	}
-	gen1Dirs := scanRoot(root)
+	var gen1Dirs [][]queueDir
 	oldChunks := 0
-	for _, d := range gen1Dirs {
-		oldChunks += len(d.chunks)
+	for o := 0; o < nout; o++ {
+		gen1Dirs = append(gen1Dirs, scanRoot(wc.rootOf(o), kinds[o]))
+		oldChunks += countChunks(gen1Dirs[o])
 	}
 
-	// ---------------- generation 2: restart on the same root, then one more record of each tuple
+	// ---------------- generation 2: restart on the same root(s), then one more record of each tuple
 	defs.IntermediateFlushInterval = time.Millisecond
 	cap2 := &capture{startup: true, confirm: true}
-	w2 := newWorld(pc.n, pc.tmpl.text(pc.n), root, cap2, 1)
+	w2 := newWorld(wc, cap2)
 	w2.args.SendAllAtEnd = true // Shutdown returns only after every attached queue has been drained into the consumer
 	mf2 := promreg.NewMetricFactory("g2_", nil, nil)
 	orc2 := w2.orcCfg.StartOrchestrator(logger.Root(), w2.args, mf2)
@@ -586,58 +808,68 @@ func runPair(pc pairCase) (string, string) {
 	if pc.conns == 2 {
 		t2 = orc2.NewSink("c4", 4)
 	}
-	t1.Accept([]*base.LogRecord{w2.record(pc.a, "A2", 3)})
-	t2.Accept([]*base.LogRecord{w2.record(pc.b, "B2", 4)})
+	recA2, _ := w2.record(pc.a, "A2", 3, false)
+	recB2, _ := w2.record(pc.b, "B2", 4, false)
+	t1.Accept([]*base.LogRecord{recA2})
+	t2.Accept([]*base.LogRecord{recB2})
 	t1.Close()
 	if pc.conns == 2 {
 		t2.Close()
 	}
 	// optimisation only: give the consumers a moment so that Shutdown finds nothing pending (it polls every 50 ms)
-	deadline := time.Now().Add(30 * time.Millisecond)
-	for time.Now().Before(deadline) {
-		if len(cap2.delivered()) >= 4 {
-			break
+	expect := 0
+	for o := 0; o < nout; o++ {
+		expect += 2
+		if pc.held(o) {
+			expect += len(gen1Markers)
 		}
-		time.Sleep(100 * time.Microsecond)
 	}
+	cap2.waitSeen(expect, 30*time.Millisecond)
 	orc2.Shutdown()
 	if l := logCap.FirstBugLine(); l != "" {
 		return "bug-log:gen2", l
 	}
-	got := cap2.delivered()
-	for _, m := range []string{"A2", "B2"} {
-		if _, ok := got[m]; !ok {
-			return "lost:gen2-record", fmt.Sprintf("new record %s of tuple %s was not delivered by generation 2", m, q(tuples[m]))
-		}
-	}
-	left := scanRoot(root)
-	for _, m := range []string{"A1", "B1"} {
-		t := tuples[m]
-		ci, ok := got[m]
-		if !ok {
-			return "recovery:chunk-never-delivered:" + tupleFeature(t), fmt.Sprintf("queued record %s of tuple %s was not delivered after the restart although a new record of the same tuple arrived; still on disk: %s", m, q(t), describeDirs(left))
-		}
-		cc := cap2.consumers[ci]
-		if !cc.startup {
-			return "recovery:not-reattached-at-startup:" + tupleFeature(t), fmt.Sprintf("queue of tuple %s (dir id: see %s) was not given a pipeline by StartOrchestrator (pipelines created at startup: %d for %d queued chunks); it was picked up only when a new record of that tuple arrived",
-				q(t), describeDirs(gen1Dirs), nStartup, oldChunks)
-		}
-		// the pipeline that delivers the queued chunk is the pipeline of exactly this tuple
-		if got[twin[m]] != ci {
-			return "recovery:reattached-to-other-keyset", fmt.Sprintf("queued chunk of tuple %s was delivered by pipeline #%d, a new record of the same tuple by pipeline #%d", q(t), ci, got[twin[m]])
-		}
-		found := false
-		for _, lt := range labelTuples {
-			if sameTuple(lt, t) {
-				found = true
+	for o := 0; o < nout; o++ {
+		oname := wc.outputName(o)
+		got := cap2.delivered(oname)
+		for _, m := range []string{"A2", "B2"} {
+			if _, ok := got[m]; !ok {
+				return "lost:gen2-record", fmt.Sprintf("new record %s of tuple %s was not delivered by generation 2 (output %s)", m, q(tuples[m]), oname)
 			}
 		}
-		if !found {
-			return "recovery:key-labels", fmt.Sprintf("after restart no pipeline carries key labels %s (pipelines: %q)", q(t), labelTuples)
+		if !pc.held(o) {
+			for _, m := range gen1Markers {
+				if _, again := got[m]; again {
+					return "dup:confirmed-record-delivered-again", fmt.Sprintf("record %s was confirmed by output %s before the restart and is delivered again after it", m, oname)
+				}
+			}
+			if got["A2"] == got["B2"] {
+				return "recovery:merged-pipelines", fmt.Sprintf("after restart tuples %s and %s are served by one pipeline (output %s)", q(pc.a), q(pc.b), oname)
+			}
+			continue
+		}
+		for _, m := range gen1Markers {
+			t := tuples[m]
+			ci, ok := got[m]
+			if !ok {
+				return "recovery:chunk-never-delivered:" + tupleFeature(t), fmt.Sprintf("queued record %s of tuple %s (output %s) was not delivered after the restart although a new record of the same tuple arrived; still on disk: %s", m, q(t), oname, describeDirs(scanRoot(wc.rootOf(o), kinds[o])))
+			}
+			cc := cap2.consumers[ci]
+			if !cc.startup {
+				return "recovery:not-reattached-at-startup:" + tupleFeature(t), fmt.Sprintf("queue of tuple %s in the root of output %s (%s; root configured as %q; outputs %v, backlog held by %s) was not given a pipeline by StartOrchestrator (consumers created at startup: %d for %d queued chunks); it was picked up only when a new record of that tuple arrived",
+					q(t), oname, describeDirs(gen1Dirs[o]), wc.rootText(o), kinds, backlogName(pc.backlog), nStartup, oldChunks)
+			}
+			// the pipeline that delivers the queued chunk is the pipeline of exactly this tuple
+			if got[twin[m]] != ci {
+				return "recovery:reattached-to-other-keyset", fmt.Sprintf("queued chunk of tuple %s was delivered by consumer #%d of output %s, a new record of the same tuple by consumer #%d", q(t), ci, oname, got[twin[m]])
+			}
+		}
+		if got["A1"] == got["B1"] || got["A2"] == got["B2"] {
+			return "recovery:merged-pipelines", fmt.Sprintf("after restart tuples %s and %s are served by one pipeline (output %s)", q(pc.a), q(pc.b), oname)
 		}
 	}
-	if got["A1"] == got["B1"] || got["A2"] == got["B2"] {
-		return "recovery:merged-pipelines", fmt.Sprintf("after restart tuples %s and %s are served by one pipeline", q(pc.a), q(pc.b))
+	if k, m := checkKeyLabels(labelTuples, tuples, []string{"A1", "B1"}, "restart"); k != "" {
+		return k, m
 	}
 	// order inside the queue and tags of everything delivered
 	for _, cc := range cap2.consumers {
@@ -648,8 +880,8 @@ func runPair(pc pairCase) (string, string) {
 			}
 			for _, r := range ch.records {
 				t := tuples[r.marker]
-				if want := refTags(parts, t); !inList(ch.tag, want) {
-					return "tag:mismatch-after-restart", fmt.Sprintf("record %s of tuple %s delivered under tag %q, template %q expands to %q", r.marker, q(t), ch.tag, pc.tmpl.text(pc.n), want)
+				if want := refTags(parts, t); !tagOK(r.tag, want) {
+					return "tag:mismatch-after-restart", fmt.Sprintf("record %s of tuple %s delivered under tag %s (output %s), template %q expands to %s", r.marker, q(t), short(r.tag), cc.output, wc.tmplText, q(want))
 				}
 				if strings.HasSuffix(r.marker, "2") {
 					seenNew = true
@@ -659,9 +891,123 @@ func runPair(pc pairCase) (string, string) {
 			}
 		}
 	}
-	for _, d := range left {
-		if len(d.chunks) > 0 {
-			return "recovery:chunk-left-on-disk", fmt.Sprintf("chunks remain on disk after generation 2 drained everything: %s", describeDirs(left))
+	for o := 0; o < nout; o++ {
+		if left := scanRoot(wc.rootOf(o), kinds[o]); countChunks(left) > 0 {
+			return "recovery:chunk-left-on-disk", fmt.Sprintf("chunks remain on disk after generation 2 drained everything (output %s): %s", wc.outputName(o), describeDirs(left))
+		}
+	}
+	return "", ""
+}
+
+func backlogName(b int) string {
+	return []string{"every output", "the first output only", "the second output only"}[b]
+}
+
+func lengths(t []string) []int {
+	l := make([]int, len(t))
+	for i, v := range t {
+		l[i] = len(v)
+	}
+	return l
+}
+
+func firstLineWith(text, needle string) string {
+	for _, l := range strings.Split(text, "\n") {
+		if strings.Contains(l, needle) {
+			if len(l) > 160 {
+				l = l[:60] + " ... " + l[len(l)-90:]
+			}
+			return l
+		}
+	}
+	return ""
+}
+
+func checkKeyLabels(labelTuples [][]string, tuples map[string][]string, markers []string, when string) (string, string) {
+	for _, m := range markers {
+		found := false
+		for _, lt := range labelTuples {
+			if sameTuple(lt, tuples[m]) {
+				found = true
+			}
+		}
+		if !found {
+			shown := make([]string, len(labelTuples))
+			for i, lt := range labelTuples {
+				shown[i] = q(lt)
+			}
+			key := "recovery:key-labels"
+			if when != "restart" {
+				key = "labels:key-labels-" + when
+			}
+			return key, fmt.Sprintf("(%s) no pipeline carries key labels %s (pipelines: %s)", when, q(tuples[m]), strings.Join(shown, " "))
+		}
+	}
+	return "", ""
+}
+
+// consumerView applies the consumer-side oracle to every output
+func consumerView(cap *capture, w *world, pc pairCase, parts []tpart, tuples map[string][]string, markers []string) (string, string) {
+	for o := range w.cfg.kinds {
+		if k, m := consumerViewOf(cap, w.cfg.outputName(o), w, pc, parts, tuples, markers); k != "" {
+			return k, m
+		}
+	}
+	return "", ""
+}
+
+// consumerViewOf: what the consumers of ONE output have been handed so far: every record of `markers` arrived, the records
+// of the two tuples through different pipelines (consumer instances), all records of one tuple through the same one, each under
+// the tag of its own tuple and with its own key values
+func consumerViewOf(cap *capture, output string, w *world, pc pairCase, parts []tpart, tuples map[string][]string, markers []string) (string, string) {
+	cap.mu.Lock()
+	defer cap.mu.Unlock()
+	by := map[string]int{}
+	tagOf := map[string]string{}
+	for _, cc := range cap.consumers {
+		if cc.output != output {
+			continue
+		}
+		for _, ch := range cc.chunks {
+			if ch.err != "" {
+				return "chunk:undecodable", fmt.Sprintf("chunk %s handed to the consumer of output %s cannot be decoded: %s", ch.id, output, ch.err)
+			}
+			for _, r := range ch.records {
+				t := tuples[r.marker]
+				if t == nil {
+					return "chunk:unknown-record", fmt.Sprintf("a record with msg=%s that was never sent reached the consumer of output %s", short(r.marker), output)
+				}
+				if _, dup := by[r.marker]; dup {
+					return "dup:gen1-record", fmt.Sprintf("record %s handed to the consumers of output %s twice", r.marker, output)
+				}
+				by[r.marker] = cc.index
+				tagOf[r.marker] = r.tag
+				for i, k := range w.keys {
+					if r.fields[k] != t[i] {
+						return "chunk:key-field-altered", fmt.Sprintf("record %s of tuple %s was serialized with %s=%s (output %s)", r.marker, q(t), k, short(r.fields[k]), output)
+					}
+				}
+			}
+		}
+	}
+	for _, m := range markers {
+		if _, ok := by[m]; !ok {
+			return "lost:gen1-record-never-reached-consumer", fmt.Sprintf("record %s of tuple %s did not reach a consumer of output %s within 20 s (flush interval 1 ms)", m, q(tuples[m]), output)
+		}
+	}
+	if by["A1"] == by["B1"] {
+		return "merge:one-pipeline:" + mergeClass(pc.a, pc.b), fmt.Sprintf("tuples %s and %s differ but their records were handed to ONE consumer instance (#%d of output %s, %d consumers exist), i.e. processed by one pipeline; tags %s / %s, expected %s / %s",
+			q(pc.a), q(pc.b), by["A1"], output, len(cap.consumers), short(tagOf["A1"]), short(tagOf["B1"]), q(refTags(parts, pc.a)), q(refTags(parts, pc.b)))
+	}
+	for _, m := range markers {
+		first := m[:1] + "1"
+		if by[m] != by[first] {
+			return "route:later-record-to-other-pipeline", fmt.Sprintf("records %s and %s have the same key values %s but were processed by different pipelines (consumers #%d and #%d of output %s)", first, m, q(tuples[m]), by[first], by[m], output)
+		}
+	}
+	for _, m := range markers {
+		if want := refTags(parts, tuples[m]); !tagOK(tagOf[m], want) {
+			return "tag:mismatch", fmt.Sprintf("record %s of tuple %s handed to the consumer of output %s under tag %s, template %q expands to %s", m, q(tuples[m]), output, short(tagOf[m]), w.cfg.tmplText, q(want))
 		}
 	}
 	return "", ""
@@ -670,9 +1016,9 @@ func runPair(pc pairCase) (string, string) {
 func describeDirs(dirs []queueDir) string {
 	var sb strings.Builder
 	for _, d := range dirs {
-		fmt.Fprintf(&sb, "[dir %q id=%q:", d.name, d.id)
+		fmt.Fprintf(&sb, "[dir %s id=%s:", short(d.name), short(d.id))
 		for _, ch := range d.chunks {
-			fmt.Fprintf(&sb, " chunk tag=%q recs=", ch.tag)
+			fmt.Fprintf(&sb, " chunk tag=%s recs=", short(ch.tag))
 			for _, r := range ch.records {
 				sb.WriteString(r.marker + " ")
 			}
@@ -735,7 +1081,7 @@ func enumerate(ctx *seq.Ctx) {
 			}
 		}
 	}
-	// two outputs (two buffer roots): separation only, 2 key fields, one template
+	// two outputs (two buffer roots), 2 key fields, one template; both outputs hold their chunks across the restart
 	ctx.Group("keys2/two-outputs")
 	for i := 0; i < 100; i++ {
 		for j := 0; j < 100; j++ {
@@ -746,6 +1092,9 @@ func enumerate(ctx *seq.Ctx) {
 				emit(2, 1, 1, i, j, 2)
 			}
 		}
+	}
+	if enumerateDimensions(ctx) {
+		return
 	}
 	if !ctx.Thorough() {
 		return
@@ -800,22 +1149,12 @@ func main() {
 	// every bufferer allocates a channel of BufferMaxNumChunksInQueue chunk slots (24 MB at the default 500000)
 	defs.BufferMaxNumChunksInQueue = 256
 	seq.Main(&seq.Config{
-		Property: "C06",
-		Level:    "exploration",
-		Rule: "every ORDERED pair of distinct key tuples over {\"\",a,b,ab,\",\",\"a,\",.,/,NUL,é} with 1 and 2 key fields x 4 tag templates x {1,2} connections (both tiers); thorough adds 3 key fields: all 999000 ordered pairs on one connection and all 499500 unordered pairs on two connections under template t.$k1.$k2, and the 1000 cyclic pairs (i,i+1) under every template x {1,2} connections. Per case a fresh real obykeyset orchestrator " +
-			"(real pipeline starter, hybrid buffer on a scratch root, fluentd serializer/chunk maker, non-confirming consumer override) gets one record of each tuple, is shut down, the queue directories are decoded, " +
-			"a second orchestrator is started on the same root by Config.StartOrchestrator and gets one more record of each tuple; plus all ordered pairs with 2 key fields on a two-output configuration (separation only). " +
-			"Oracle: different pipelines/chunks/queue dirs, chunk tag = reference expansion for the record's own tuple, serialized key fields unchanged, queued chunk re-attached at startup to the pipeline that also receives the new record of its tuple and that carries its key_* labels. " +
-			"non-trivial = every case (all reach routing, queueing and recovery)",
-		Assumptions: []string{
-			"key values are put into the record fields directly (any byte string the parser could extract); invalid UTF-8 values belong to C07",
-			"${k1[:1]} may count bytes or characters (undocumented): both expansions are accepted",
-			"with one key field the templates mentioning $k2 are used without the k2 part (a tag may only reference key fields)",
-			"defs.InputLogMaxMessageBytes is scaled to 16 KiB (serializer buffer size only) and defs.BufferMaxNumChunksInQueue to 256 (channel capacity only); defs.IntermediateFlushInterval is 1 s in generation 1 (chunks cut at shutdown) and 1 ms in generation 2",
-			"'re-attached at startup' is observed as: the consumer that delivers the queued chunk was created inside StartOrchestrator, not later when a record of the tuple arrived (documented intent in obykeyset/config.go)",
-		},
+		Property:         "C06",
+		Level:            "exploration",
+		Rule:             ruleText,
+		Assumptions:      assumptions,
 		Enumerate:        enumerate,
-		QuickDeadline:    4 * time.Minute,
+		QuickDeadline:    20 * time.Minute,
 		ThoroughDeadline: 60 * time.Minute,
 	})
 }
